@@ -209,6 +209,7 @@ func init() {
 			os.items.Remove(next)
 			return next.Value.(*node)
 		}`)
+		flow, first, fallback, checkoutArgv := c24SinceFlow()
 		keys := make([]string, 0, len(vals))
 		for k := range vals {
 			keys = append(keys, k)
@@ -220,6 +221,165 @@ func init() {
 		for _, k := range keys {
 			b.WriteString("Definition " + k + " : string := " + coqString(vals[k]) + ".\n")
 		}
+		b.WriteString("(* src/please.go \"query.changes\", exact mode: the statements from `original := ...` to the end, translated;\n" +
+			"   src/scm/git.go: the git commands CurrentRevIdentifier and Checkout run *)\n")
+		b.WriteString("Definition query_changes_flow : list string := " + coqStringList(flow) + ".\n")
+		b.WriteString("Definition CurrentRevIdentifier_first : list string := " + coqStringList(first) + ".\n")
+		b.WriteString("Definition CurrentRevIdentifier_fallback : list string := " + coqStringList(fallback) + ".\n")
+		b.WriteString("Definition Checkout_argv : list string := " + coqStringList(checkoutArgv) + ".\n")
 		return b.String()
 	}
 }
+
+// ---------------------------------------------------------------------------------------------
+// `plz query changes --since REV`, exact mode: src/please.go buildFunctions["query.changes"], src/scm/git.go
+
+func c24Text(fset *token.FileSet, n ast.Node) string {
+	var b bytes.Buffer
+	if err := printer.Fprint(&b, fset, n); err != nil {
+		failShape("cannot print a node: %v", err)
+	}
+	return strings.Join(strings.Fields(b.String()), " ")
+}
+
+// the string literals of a printed argument list `"a", "b", x` -> [a b $x]
+func c24Argv(where, args string) []string {
+	out := []string{}
+	for _, a := range strings.Split(args, ", ") {
+		a = strings.TrimSpace(a)
+		switch {
+		case len(a) >= 2 && a[0] == '"' && a[len(a)-1] == '"' && !strings.Contains(a[1:len(a)-1], `"`):
+			out = append(out, a[1:len(a)-1])
+		case regexp.MustCompile(`^\w+$`).MatchString(a):
+			out = append(out, "$"+a)
+		default:
+			failShape("%s: argument %s of a git command is neither a string literal nor a variable", where, a)
+		}
+	}
+	return out
+}
+
+// c24SinceFlow translates the exact-mode tail of query.changes into the step language of Model/C24.v (one token per
+// statement, in source order), and reads the argument vectors of the git commands it relies on.
+// The part of the function before `original := ...` (level defaulting, the three early returns of the inexact
+// modes) is pinned.
+func c24SinceFlow() (flow, first, fallback, checkout []string) {
+	fset, f := parseFile("src/please.go")
+	var lit *ast.FuncLit
+	ast.Inspect(f, func(n ast.Node) bool {
+		kv, ok := n.(*ast.KeyValueExpr)
+		if !ok {
+			return true
+		}
+		if k, ok := kv.Key.(*ast.BasicLit); ok && k.Kind == token.STRING && k.Value == `"query.changes"` {
+			if fl, ok := kv.Value.(*ast.FuncLit); ok {
+				if lit != nil {
+					failShape("src/please.go: two \"query.changes\" entries")
+				}
+				lit = fl
+			}
+		}
+		return true
+	})
+	if lit == nil {
+		failShape("src/please.go: no \"query.changes\" function literal")
+	}
+	stmts := lit.Body.List
+	start := -1
+	for i, st := range stmts {
+		if strings.HasPrefix(c24Text(fset, st), "original := ") {
+			start = i
+			break
+		}
+	}
+	if start < 0 {
+		failShape("src/please.go query.changes: no `original := ...` statement")
+	}
+	prefix := []string{}
+	for _, st := range stmts[:start] {
+		prefix = append(prefix, c24Text(fset, st))
+	}
+	wantPrefix := strings.Join(strings.Fields(`
+		opts.BuildFlags.Exclude = append(opts.BuildFlags.Exclude, "manual", "manual:"+core.OsArch)
+		includeSubrepos := opts.Query.Changes.IncludeSubrepos
+		level := opts.Query.Changes.Level
+		transitive := opts.Query.Changes.IncludeDependees == "transitive"
+		direct := opts.Query.Changes.IncludeDependees == "direct"
+		if transitive || direct { log.Warning("include_dependees is deprecated. Please use level instead") }
+		if (transitive || direct) && level != -2 { log.Warning("Both level and include_dependees are set. Using the value from level") }
+		switch { case transitive && (level == -2): level = -1 case direct && (level == -2): level = 1 case level == -2: level = 0 }
+		runInexact := func(files []string) int { return runQuery(true, core.WholeGraph, func(state *core.BuildState) { for _, target := range query.Changes(state, files, level, includeSubrepos) { fmt.Println(target.String()) } }) }
+		if len(opts.Query.Changes.Args.Files) > 0 { return runInexact(opts.Query.Changes.Args.Files.Get()) }
+		scm := scm.MustNew(core.RepoRoot)
+		if opts.Query.Changes.In != "" { return runInexact(scm.ChangesIn(opts.Query.Changes.In, "")) } else if opts.Query.Changes.Inexact { return runInexact(scm.ChangedFiles(opts.Query.Changes.Since, true, "")) }
+	`), " ")
+	if got := strings.Join(prefix, " "); c24NoComments(got) != wantPrefix {
+		failShape("src/please.go query.changes: the part before `original := ...` has an unrecognised shape: %s", got)
+	}
+	checkoutRe := regexp.MustCompile(`^if err := scm\.Checkout\(([\w.]+)\); err != nil \{ log\.Fatalf\("%s", err\) \}$`)
+	parseRe := regexp.MustCompile(`^(_|success), (before|after) := runBuild\(core\.WholeGraph, false, false, false\)$`)
+	diffRe := regexp.MustCompile(`^for _, target := range query\.DiffGraphs\((\w+), (\w+), files, level, includeSubrepos\) \{ fmt\.Println\(target\.String\(\)\) \}$`)
+	origRe := regexp.MustCompile(`^original := scm\.CurrentRevIdentifier\((true|false)\)$`)
+	for i, st := range stmts[start:] {
+		x := c24NoComments(c24Text(fset, st))
+		last := i == len(stmts[start:])-1
+		switch {
+		case origRe.MatchString(x):
+			flow = append(flow, "original:"+origRe.FindStringSubmatch(x)[1])
+		case x == `files := scm.ChangedFiles(opts.Query.Changes.Since, true, "")`:
+			flow = append(flow, "files")
+		case strings.HasPrefix(x, "log.Debugf("):
+		case checkoutRe.MatchString(x):
+			switch arg := checkoutRe.FindStringSubmatch(x)[1]; arg {
+			case "opts.Query.Changes.Since":
+				flow = append(flow, "checkout:since")
+			case "original":
+				flow = append(flow, "checkout:original")
+			default:
+				failShape("src/please.go query.changes: checkout of %s", arg)
+			}
+		case x == "readConfig()":
+			flow = append(flow, "readconfig")
+		case parseRe.MatchString(x):
+			flow = append(flow, "parse:"+parseRe.FindStringSubmatch(x)[2])
+		case x == "if !success { return 1 }":
+		case diffRe.MatchString(x):
+			m := diffRe.FindStringSubmatch(x)
+			flow = append(flow, "diff:"+m[1]+","+m[2])
+		case x == "return 0" && last:
+		default:
+			failShape("src/please.go query.changes: unrecognised statement in the exact-mode tail: %s", x)
+		}
+	}
+	// readConfig assigns the package-level `config`, runBuild builds from it
+	rc := c24NoComments(c24Body(fset, findFunc(f, "", "readConfig")))
+	if !strings.HasPrefix(rc, "{ cfg, err := core.ReadDefaultConfigFiles(fs.HostFS, opts.BuildFlags.Profile)") || !strings.HasSuffix(rc, "config = cfg return cfg }") {
+		failShape("src/please.go readConfig has an unrecognised shape: %s", rc)
+	}
+	rb := c24NoComments(c24Body(fset, findFunc(f, "", "runBuild")))
+	if !strings.HasSuffix(rb, "return Please(targets, config, shouldBuild, shouldTest) }") || strings.Contains(rb, "config =") || strings.Contains(rb, "config :=") {
+		failShape("src/please.go runBuild has an unrecognised shape: %s", rb)
+	}
+	// scm/git.go
+	gset, g := parseFile("src/scm/git.go")
+	cri := c24NoComments(c24Body(gset, findFunc(g, "git", "CurrentRevIdentifier")))
+	criRe := regexp.MustCompile(`^\{ if !permanent \{ out, err := exec\.Command\("git", ([^()]*)\)\.CombinedOutput\(\) if err == nil \{ return strings\.TrimSpace\(string\(out\)\) \} \} ` +
+		`out, err := exec\.Command\("git", ([^()]*)\)\.CombinedOutput\(\) if err != nil \{ log\.Fatalf\(.*\) \} return strings\.TrimSpace\(string\(out\)\) \}$`)
+	m := criRe.FindStringSubmatch(cri)
+	if m == nil {
+		failShape("src/scm/git.go CurrentRevIdentifier has an unrecognised shape: %s", cri)
+	}
+	first, fallback = c24Argv("CurrentRevIdentifier", m[1]), c24Argv("CurrentRevIdentifier", m[2])
+	co := c24NoComments(c24Body(gset, findFunc(g, "git", "Checkout")))
+	coRe := regexp.MustCompile(`^\{ if out, err := exec\.Command\("git", ([^()]*)\)\.CombinedOutput\(\); err != nil \{ return fmt\.Errorf\(.*\) \} return nil \}$`)
+	cm := coRe.FindStringSubmatch(co)
+	if cm == nil {
+		failShape("src/scm/git.go Checkout has an unrecognised shape: %s", co)
+	}
+	checkout = c24Argv("Checkout", cm[1])
+	return
+}
+
+// go/printer does not print the file's comments when it is handed a statement or a body (they hang off *ast.File),
+// so the normalised text is already comment free.
+func c24NoComments(x string) string { return x }
